@@ -29,10 +29,11 @@ def jobs(tier):
     LST = 'smt_idl_value_listener_idl_value_change__U'
     C_LST = Contract(requires=['1'], ensures=['1'], assigns='')   # assumption: value listeners do not touch the theory's state
 
-    def J(name, target, contract, **kw):
-        out.append(Job('idl.' + name, target, tus=TUS, contract=contract, defines=d, callee_contracts={LST: C_LST}, replace=[LST], unwind=N * N + 2, model_unwind=N * N + 2, spec_headers=SPEC,
-                       exceptions=True, caps=CAPS, abstract_fields=ABS, harness_pre=HPRE, force_types=FORCE, timeout=2400, mem_gb=24, mem_est=4,
-                       bounded='%d time points (matrix %dx%d), one symbolic open level (depth by induction), no value listeners registered' % (N, N, N), **kw))
+    def J(name, target, contract, n=None, **kw):
+        n = n or N
+        out.append(Job('idl.' + name, target, tus=TUS, contract=contract, defines=dict(d, XT_N=n), callee_contracts={LST: C_LST}, replace=[LST], unwind=n * n + 2, model_unwind=n * n + 2, spec_headers=SPEC,
+                       exceptions=True, caps=caps(n), abstract_fields=ABS, harness_pre=HPRE, force_types=FORCE, timeout=2400, mem_gb=24, mem_est=4,
+                       bounded='%d time points (matrix %dx%d), one symbolic open level (depth by induction), no value listeners registered' % (n, n, n), **kw))
 
     base = [FRESH, '__exc == 0', 'spu_inv(self)', 'self->listening.n == 0']
     # set_dist: only D[from][to] changes; the log gets the OLD value the first time the entry is written in this level
@@ -70,7 +71,8 @@ def jobs(tier):
                         ('predecessors_restored', 'spu_P_eq_except(xt_snapP, self->_preds, XT_N, XT_N, 0)'),
                         ('enforced_constraints_restored', 'spu_same_C(self->dist_constr, xt_snapC)'),
                         ('level_closed', 'self->layers.n == 0')],
-               assigns='__exc, self->_dists, self->_preds, self->dist_constr, self->layers'))
+               assigns='__exc, self->_dists, self->_preds, self->dist_constr, self->layers'),
+      n=2)   # 2 time points in both tiers: the 3x3 instance of pop ran into the solver timeout (2400 s) in this sandbox
     dl_propagate_jobs(out, tier, 2, dict(d, XT_N=2), caps(2))   # 2 time points in both tiers (the 3x3 instance of the edge step was not run to completion)
     lra_jobs(out, tier)
     sat_jobs(out, tier)
